@@ -16,11 +16,11 @@ func init() {
 
 // storeFacts identifies the store's tree type, its fields by role, constructors and getters.
 type storeFacts struct {
-	T        *types.Named // InMemory
-	St       *types.Struct
-	Fields   map[string]int // role -> field index: pos, node, parent, namespaces, attributes, children
-	Ctors    map[*ssa.Function]ctorInfo
-	err      []string
+	T      *types.Named // InMemory
+	St     *types.Struct
+	Fields map[string]int // role -> field index: pos, node, parent, namespaces, attributes, children
+	Ctors  map[*ssa.Function]ctorInfo
+	err    []string
 }
 
 type ctorInfo struct {
@@ -131,6 +131,35 @@ func (w *World) StoreFacts() *storeFacts {
 	return sf
 }
 
+// endEventReturns: in fn every block reached only when the Pull's end flag is true leads straight to a return.
+func endEventReturns(fn *ssa.Function) bool {
+	ok := false
+	allInstrs(fn, func(in ssa.Instruction) {
+		c, isCall := in.(*ssa.Call)
+		if !isCall || !c.Call.IsInvoke() || c.Call.Method.Name() != "Pull" {
+			return
+		}
+		var isEnd ssa.Value
+		for _, rr := range referrers(c) {
+			if ex, isEx := rr.(*ssa.Extract); isEx && ex.Index == 1 {
+				isEnd = ex
+			}
+		}
+		for _, b := range fn.Blocks {
+			for _, a := range guardAtoms(b) {
+				if a.V == isEnd && a.Pol {
+					for _, in2 := range b.Instrs {
+						if _, isRet := in2.(*ssa.Return); isRet {
+							ok = true
+						}
+					}
+				}
+			}
+		}
+	})
+	return ok
+}
+
 func (sf *storeFacts) roleOf(field int) string {
 	for r, f := range sf.Fields {
 		if f == field {
@@ -211,6 +240,8 @@ func checkC10(w *World) {
 			}
 			if !fresh {
 				bad = "recursive call at " + w.pos(c.Pos()) + " does not descend into a freshly constructed element: one stack frame per event"
+			} else if !endEventReturns(fn) {
+				bad = "recursive call at " + w.pos(c.Pos()) + " descends per element but end events do not return from the activation: the frames of closed elements are never released (stack grows with the number of elements)"
 			}
 		})
 		w.check(P, "R10.1", "event consumer "+fn.Name(), fn.Pos(), bad == "", fmt.Sprintf("%d recursive calls; %s", recursiveCalls, bad))
@@ -469,7 +500,48 @@ func checkC10(w *World) {
 			w.check(P, "R10.5", fmt.Sprintf("replacement of a slot of the %s list in %s", role, fn.Name()), c.Pos(), okParent && okPos, fmt.Sprintf("the replacing cursor is constructed with the list owner as parent: %v; with the position of the cursor it replaces (so the list stays in ascending Pos() order): %v", okParent, okPos))
 		})
 	})
-	w.floor(P, "R10.5", 5)
+	// the by-prefix search covers the element's whole namespace list
+	w.forAllFuncs("store", func(fn *ssa.Function) {
+		replaces := false
+		allInstrs(fn, func(in ssa.Instruction) {
+			if st, ok := in.(*ssa.Store); ok {
+				if ia, ok := st.Addr.(*ssa.IndexAddr); ok {
+					if ld, ok := ia.X.(*ssa.UnOp); ok {
+						if fa, ok := ld.X.(*ssa.FieldAddr); ok && sf.roleOf(fa.Field) == "namespaces" {
+							replaces = true
+						}
+					}
+				}
+			}
+		})
+		if !replaces {
+			return
+		}
+		allInstrs(fn, func(in ssa.Instruction) {
+			ta, ok := in.(*ssa.TypeAssert)
+			if !ok {
+				return
+			}
+			// the cursor whose prefix is compared: element of which slice?
+			ld, ok := ta.X.(*ssa.UnOp)
+			if !ok {
+				return
+			}
+			ia, ok := ld.X.(*ssa.IndexAddr)
+			if !ok || !ascendingCounter(ia.Index) {
+				return
+			}
+			full := false
+			if l2, ok := ia.X.(*ssa.UnOp); ok {
+				if fa, ok := l2.X.(*ssa.FieldAddr); ok && sf.roleOf(fa.Field) == "namespaces" {
+					full = true
+				}
+			}
+			n5++
+			w.check(P, "R10.5", "prefix search range in "+fn.Name(), ta.Pos(), full, fmt.Sprintf("the search for an existing binding of the prefix ranges over the element's whole namespace list: %v (a partial range lets one element own two nodes for the same prefix)", full))
+		})
+	})
+	w.floor(P, "R10.5", 6)
 
 	// R10.6 distinct fields
 	seen := map[int]string{}
@@ -567,4 +639,93 @@ func checkC10(w *World) {
 		w.undecided(P, "R10.7", "end event", entry.Pos(), "no Pull call with an end flag found")
 	}
 	w.floor(P, "R10.7", 2)
+
+	// R10.8 no event is dropped
+	docRule(P, "R10.8", "D", "every non-end, non-error event of the stream becomes a node: on every path from the Pull call to the next Pull (or recursive call) a cursor constructor is called (directly or through a helper that always calls one); nothing is filtered by value.")
+	for _, fn := range pullers {
+		var pull *ssa.Call
+		allInstrs(fn, func(in ssa.Instruction) {
+			if c, ok := in.(*ssa.Call); ok && c.Call.IsInvoke() && c.Call.Method.Name() == "Pull" {
+				pull = c
+			}
+		})
+		if pull == nil {
+			continue
+		}
+		var isEnd, errV ssa.Value
+		for _, rr := range referrers(pull) {
+			if ex, ok := rr.(*ssa.Extract); ok {
+				if ex.Index == 1 {
+					isEnd = ex
+				}
+				if ex.Index == 2 {
+					errV = ex
+				}
+			}
+		}
+		creates := func(c *ssa.Call) bool {
+			sc := staticCallee(c)
+			if sc == nil {
+				return false
+			}
+			if _, ok := sf.Ctors[sc]; ok {
+				return true
+			}
+			if fnPkgKey(sc) == "store" && sc != fn {
+				for g := range staticReach(sc, func(x *ssa.Function) bool { return fnPkgKey(x) == "store" }) {
+					if _, ok := sf.Ctors[g]; ok {
+						return true
+					}
+				}
+			}
+			return false
+		}
+		dropped := ""
+		seen := map[*ssa.BasicBlock]bool{}
+		var walk func(b *ssa.BasicBlock, start int)
+		walk = func(b *ssa.BasicBlock, start int) {
+			for i := start; i < len(b.Instrs); i++ {
+				switch x := b.Instrs[i].(type) {
+				case *ssa.Call:
+					if creates(x) {
+						return
+					}
+					if x == pull || staticCallee(x) == fn {
+						dropped = w.pos(x.Pos())
+						return
+					}
+				case *ssa.Return:
+					return
+				case *ssa.If:
+					// do not follow the error and end branches
+					for si, s := range b.Succs {
+						skip := false
+						if bo, ok := x.Cond.(*ssa.BinOp); ok && bo.X == errV && si == 0 {
+							skip = true
+						}
+						if c, ok := x.Cond.(*ssa.Call); ok && staticCallee(c) != nil && funcFullName(staticCallee(c)) == "errors.Is" && si == 0 {
+							skip = true
+						}
+						if x.Cond == isEnd && si == 0 {
+							skip = true
+						}
+						if !skip && !seen[s] {
+							seen[s] = true
+							walk(s, 0)
+						}
+					}
+					return
+				}
+			}
+			for _, s := range b.Succs {
+				if !seen[s] {
+					seen[s] = true
+					walk(s, 0)
+				}
+			}
+		}
+		walk(pull.Block(), instrIndex(pull)+1)
+		w.check(P, "R10.8", "every event becomes a node in "+fn.Name(), pull.Pos(), dropped == "", "a path reaches the next event at "+orNone(dropped)+" without constructing a cursor for the current one")
+	}
+	w.floor(P, "R10.8", 1)
 }
